@@ -23,7 +23,9 @@ fn inline() -> RefPrint { RefPrint { indent_char: ' ', indent_n: 0, a_begin: 1, 
 
 fn leaves() -> Vec<RefValue> {
     vec![RefValue::Null, RefValue::Bool(true), RefValue::Bool(false), RefValue::Num("0".into()), RefValue::Num("-1.50e+3".into()),
-         RefValue::Str("".into()), RefValue::Str("a\"\\/".into()), RefValue::Str("\u{1}\u{1f}\u{8}\u{c}\n\r\t".into()), RefValue::Str("\u{7f}\u{2028}\u{1F600}\u{e9}".into())]
+         RefValue::Str("".into()), RefValue::Str("a\"\\/".into()), RefValue::Str("\u{1}\u{1f}\u{8}\u{c}\n\r\t".into()), RefValue::Str("\u{7f}\u{2028}\u{1F600}\u{e9}".into()),
+         // every control character once (each low nibble of the \u00XX form, the one without a short form between \n and \f)
+         RefValue::Str("abcdefgh\u{b}".into()), RefValue::Str((0u8..0x20).map(|b| b as char).collect::<String>())]
 }
 const KEYS: [&str; 4] = ["", "k", "k", "\"\u{e9}\n"];
 
